@@ -192,6 +192,20 @@ impl Clone for Histogram {
     }
 }
 
+#[cfg(transparencies_stretto_verif)]
+impl Histogram {
+    /// (count, per-bucket counts)
+    pub(crate) fn verif_counts(&self) -> (i64, Vec<i64>) {
+        (
+            self.count.load(Ordering::SeqCst),
+            self.count_per_bucket
+                .iter()
+                .map(|c| c.load(Ordering::SeqCst))
+                .collect(),
+        )
+    }
+}
+
 fn init_cpb(num: usize) -> Vec<AtomicI64> {
     vec![0; num]
         .into_iter()
